@@ -70,6 +70,9 @@ VALID_MDNS_REGEX = re.compile(r"[^A-Za-z0-9\-]+")
 LEADING_TRAILING_SPACE_DASH = re.compile(r"^[ -]+|[ -]+$")
 DASH_REGEX = re.compile(r"[-]+")
 KEYS_TO_EXCLUDE = {HAP_REPR_IID, HAP_REPR_AID}
+# A DNS label is limited to 63 bytes, 7 of them are taken by the MAC suffix
+MAX_MDNS_NAME_LENGTH = 63 - 7
+DEFAULT_MDNS_NAME = "HAP"
 
 
 def _wrap_char_setter(char, value, client_addr):
@@ -147,14 +150,16 @@ class AccessoryMDNSServiceInfo(ServiceInfo):
         )
 
     def _valid_name(self):
-        return re.sub(
+        name = re.sub(
             LEADING_TRAILING_SPACE_DASH,
             "",
             re.sub(VALID_MDNS_REGEX, " ", self.accessory.display_name),
         )
+        name = re.sub(LEADING_TRAILING_SPACE_DASH, "", name[:MAX_MDNS_NAME_LENGTH])
+        return name or DEFAULT_MDNS_NAME
 
     def _valid_host_name(self):
-        return re.sub(
+        name = re.sub(
             DASH_REGEX,
             "-",
             re.sub(VALID_MDNS_REGEX, " ", self.accessory.display_name)
@@ -162,6 +167,7 @@ class AccessoryMDNSServiceInfo(ServiceInfo):
             .replace(" ", "-")
             .strip("-"),
         )
+        return name[:MAX_MDNS_NAME_LENGTH].strip("-") or DEFAULT_MDNS_NAME
 
     def _setup_hash(self):
         setup_hash_material = self.state.setup_id + self.state.mac
